@@ -23,12 +23,14 @@ package c14
 
 import (
 	"context"
+	"encoding/json"
 	"fmt"
 	"os"
 	"path/filepath"
 	"reflect"
 	"runtime/debug"
 	"sort"
+	"strconv"
 	"strings"
 	"sync/atomic"
 	"testing"
@@ -54,6 +56,7 @@ type progCase struct {
 	N     int         `json:"n"`    // rows of t.csv; row k carries Base[(k-1) % len(Base)]
 	CPU   int         `json:"cpu"`
 	Base  [][]*string `json:"base"` // g i f s d k j b (null = NULL cell)
+	WN    bool        `json:"without_null,omitempty"` // attribute with which the companion files tx.* are loaded
 	Vars  []string    `json:"vars"` // initialisers of @vi @vf @vs @vd @vb @vk
 	CurOn string      `json:"cursor_on"`
 	CurAt int         `json:"cursor_at"`
@@ -80,12 +83,13 @@ func genCase(t *rapid.T) progCase {
 	}
 	c.CurOn = fw.PickU(t, "curOn", []string{"t", "tt"})
 	c.CurAt = fw.Uniform(t, "curAt", c.N)
+	c.WN = fw.Pct(t, "withoutNull", 25)
 	uses, leaves := map[string]bool{}, map[string]bool{}
 	n := 1 + fw.Uniform(t, "nunits", 4)
 	for i := 0; i < n; i++ {
-		c.Units = append(c.Units, genUnit(t, i, uses, leaves))
+		c.Units = append(c.Units, genUnit(t, i, uses, leaves, c.WN, c.fixedPositions()))
 	}
-	c.Tail = genTail(t)
+	c.Tail = genTail(t, c.WN, c.fixedPositions())
 	c.Uses = fw.SortedKeys(uses)
 	c.Leafs = fw.SortedKeys(leaves)
 	return c
@@ -115,6 +119,105 @@ func (c progCase) csv() string {
 	return b.String()
 }
 
+// row returns the cells of row k (1-based): id g i f s d k j b.
+func (c progCase) row(k int) []*string {
+	id := fmt.Sprint(k)
+	return append([]*string{&id}, c.Base[(k-1)%len(c.Base)]...)
+}
+
+// the fixed-length companion file has the columns whose values are plain ASCII without spaces
+var fixedCols = []int{0, 1, 2, 3, 6, 8} // id g i f k b
+
+func (c progCase) fixedWidths() []int {
+	ws := make([]int, len(fixedCols))
+	for i, ci := range fixedCols {
+		ws[i] = len(colNames[ci])
+		if ci == 0 {
+			if n := len(fmt.Sprint(c.N)); n > ws[i] {
+				ws[i] = n
+			}
+			continue
+		}
+		for _, r := range c.Base {
+			if r[ci-1] != nil && len(*r[ci-1]) > ws[i] {
+				ws[i] = len(*r[ci-1])
+			}
+		}
+		ws[i]++
+	}
+	ws[0]++
+	return ws
+}
+
+// fixedPositions is the delimiter_positions argument of FIXED() for tx.txt.
+func (c progCase) fixedPositions() string {
+	var parts []string
+	end := 0
+	for _, w := range c.fixedWidths() {
+		end += w
+		parts = append(parts, fmt.Sprint(end))
+	}
+	return "[" + strings.Join(parts, ", ") + "]"
+}
+
+// files renders t.csv and the companion files with the same rows in the other formats.
+func (c progCase) files() map[string]string {
+	var tsv, ltsv, js, jsl, fixed strings.Builder
+	tsv.WriteString(strings.ReplaceAll(colList, ", ", "\t") + "\n")
+	ws := c.fixedWidths()
+	for i, ci := range fixedCols {
+		fmt.Fprintf(&fixed, "%-*s", ws[i], colNames[ci])
+	}
+	fixed.WriteString("\n")
+	js.WriteString("[")
+	for k := 1; k <= c.N; k++ {
+		row := c.row(k)
+		var obj strings.Builder
+		obj.WriteString("{")
+		for i, cell := range row {
+			if i > 0 {
+				tsv.WriteString("\t")
+				ltsv.WriteString("\t")
+				obj.WriteString(",")
+			}
+			if i == 0 {
+				tsv.WriteString(*cell)
+			} else {
+				tsv.WriteString(csvCell(cell))
+			}
+			ltsv.WriteString(colNames[i] + ":")
+			obj.WriteString(strconv.Quote(colNames[i]) + ":")
+			if cell == nil {
+				obj.WriteString("null")
+			} else {
+				if colNames[i] != "j" { // (the LTSV reader does not return JSON text unchanged: JSON_VALUE would fail on it)
+					ltsv.WriteString(*cell)
+				}
+				b, _ := json.Marshal(*cell)
+				obj.Write(b)
+			}
+		}
+		obj.WriteString("}")
+		tsv.WriteString("\n")
+		ltsv.WriteString("\n")
+		if k > 1 {
+			js.WriteString(",\n")
+		}
+		js.WriteString(obj.String())
+		jsl.WriteString(obj.String() + "\n")
+		for i, ci := range fixedCols {
+			v := ""
+			if row[ci] != nil {
+				v = *row[ci]
+			}
+			fmt.Fprintf(&fixed, "%-*s", ws[i], v)
+		}
+		fixed.WriteString("\n")
+	}
+	js.WriteString("]\n")
+	return map[string]string{"t.csv": c.csv(), "tx.tsv": tsv.String(), "tx.ltsv": ltsv.String(), "tx.json": js.String(), "tx.jsonl": jsl.String(), "tx.txt": fixed.String()}
+}
+
 const churnStmt = "@churn := (SELECT COUNT(UPPER(s) || STRING(INTEGER(i) * 2) || STRING(FLOAT(f) / 7) || STRING(ADD_DAY(d, 1))) FROM t);"
 
 func (c progCase) setup() string {
@@ -125,6 +228,8 @@ func (c progCase) setup() string {
 	}
 	return fmt.Sprintf("VAR @vi := %s, @vf := %s, @vs := %s, @vd := %s, @vb := %s, @vk := %s, @vn := NULL, @churn;\n", v[0], v[1], v[2], v[3], v[4], v[5]) +
 		"VAR @ci, @cf, @cs, @cd, @ck, @q1, @q2, @q3, @q4, @q5, @x1, @x2, @x3, @x4, @x5;\n" +
+		// the arguments of the table objects
+		"VAR @venc := 'UTF8', @vdl := ',', @vtab := '\\t', @vnh := FALSE, @vwn := " + boolWord(c.WN) + ", @vjq := '', @vpos := '" + c.fixedPositions() + "';\n" +
 		"DECLARE tt VIEW (" + colList + ") AS SELECT INTEGER(id), INTEGER(g), INTEGER(i), FLOAT(f), s, DATETIME(d), INTEGER(k), j, BOOLEAN(b) FROM t;\n" +
 		sacrificial +
 		"DECLARE cur CURSOR FOR SELECT i, f, s, d, k FROM " + c.CurOn + " ORDER BY INTEGER(id);\n" +
@@ -135,7 +240,7 @@ func (c progCase) setup() string {
 func (c progCase) probe() string {
 	var b strings.Builder
 	b.WriteString("PRINT '@@b:probe@@';\n")
-	for _, v := range []string{"@vi", "@vf", "@vs", "@vd", "@vb", "@vk", "@vn", "@ci", "@cf", "@cs", "@cd", "@ck"} {
+	for _, v := range []string{"@vi", "@vf", "@vs", "@vd", "@vb", "@vk", "@vn", "@ci", "@cf", "@cs", "@cd", "@ck", "@venc", "@vdl", "@vtab", "@vnh", "@vwn", "@vjq", "@vpos"} {
 		b.WriteString("PRINT " + v + ";\n")
 	}
 	at := []int{0, c.CurAt, c.N - 1}
@@ -168,6 +273,9 @@ func (c progCase) tail() string {
 	return "PRINT '@@b:tail@@';\nSELECT * FROM t;\n" + strings.Join(c.Tail, "\n") + "\nSELECT * FROM t;\nSELECT * FROM tt;\nPRINT '@@e:tail@@';\n"
 }
 
+// failMark starts a line that holds one statement which has to fail; the session goes on after it.
+const failMark = "/*@@must fail@@*/ "
+
 func (u unit) text(idx int) string {
 	name := fmt.Sprintf("u%d", idx)
 	var b strings.Builder
@@ -183,6 +291,11 @@ func (u unit) text(idx int) string {
 	} else {
 		for r := 0; r < u.Reps; r++ {
 			b.WriteString(rep)
+			if r < u.Reps-1 {
+				for _, f := range u.Fails {
+					b.WriteString(failMark + strings.ReplaceAll(f, "\n", " ") + "\n")
+				}
+			}
 		}
 	}
 	return b.String()
@@ -231,10 +344,51 @@ type runOut struct {
 
 const runLimit = 120 * time.Second
 
-// execProgram parses text, executes the tree in a fresh session over dir and
-// compares it afterwards with pristine, another parse of the same text (nil: no comparison).
-func execProgram(dir string, cpu int, text string, pristine []parser.Statement, poison bool, prepared map[string]string) (ro runOut) {
-	executed, _, err := parser.Parse(text, "", false, false)
+type chunk struct {
+	text     string
+	mustFail bool
+}
+
+// chunksOf cuts a program at the lines that hold a statement which has to fail: the statement lists in between are
+// executed by one Execute call each, like the statements an interactive session receives one after the other.
+func chunksOf(text string) []chunk {
+	var out []chunk
+	var cur []string
+	flush := func() {
+		if len(cur) > 0 {
+			out = append(out, chunk{text: strings.Join(cur, "\n") + "\n"})
+			cur = nil
+		}
+	}
+	for _, ln := range strings.Split(text, "\n") {
+		if strings.HasPrefix(ln, failMark) {
+			flush()
+			out = append(out, chunk{text: strings.TrimPrefix(ln, failMark), mustFail: true})
+		} else {
+			cur = append(cur, ln)
+		}
+	}
+	flush()
+	return out
+}
+
+func parseChunks(chunks []chunk) ([][]parser.Statement, error) {
+	out := make([][]parser.Statement, len(chunks))
+	for i, ch := range chunks {
+		stmts, _, err := parser.Parse(ch.text, "", false, false)
+		if err != nil {
+			return nil, fmt.Errorf("%v in:\n%s", err, clip(ch.text, 1500))
+		}
+		out[i] = stmts
+	}
+	return out, nil
+}
+
+// execProgram parses text, executes the trees chunk by chunk in a fresh session over dir and compares them afterwards
+// with pristine, another parse of the same text (nil: no comparison).
+func execProgram(dir string, cpu int, text string, pristine [][]parser.Statement, poison bool, prepared map[string]string) (ro runOut) {
+	chunks := chunksOf(text)
+	executed, err := parseChunks(chunks)
 	if err != nil {
 		ro.harness = "generated program does not parse: " + err.Error()
 		return ro
@@ -254,9 +408,26 @@ func execProgram(dir string, cpu int, text string, pristine []parser.Statement, 
 	}
 	defer s.Close()
 	d0 := atomic.LoadInt64(&value.VerifDiscards)
-	r := s.ExecStmts(executed)
+	var failLog []string
+	for i, ch := range chunks {
+		r := s.ExecStmts(executed[i])
+		ro.views = append(ro.views, r.Views...)
+		if ch.mustFail {
+			if r.Err == nil {
+				fw.AddExtra("must_fail_statement_succeeded", 1)
+				failLog = append(failLog, "<<no failure: "+ch.text+">>")
+			} else {
+				failLog = append(failLog, "<<failed as intended: "+errKey(r.Err)+">>")
+			}
+			continue
+		}
+		if r.Err != nil {
+			ro.err = r.Err
+			break
+		}
+	}
 	ro.discards = atomic.LoadInt64(&value.VerifDiscards) - d0
-	ro.out, ro.err, ro.views = s.Out.String(), r.Err, r.Views
+	ro.out = s.Out.String() + "\n" + strings.Join(failLog, "\n")
 	if ctx.Err() != nil {
 		ro.timeout = true
 		return ro
@@ -490,7 +661,7 @@ func checkProgram(c progCase) (fw.Outcome, *fw.Violation) {
 	}
 	for _, u := range c.Uses {
 		switch {
-		case strings.HasPrefix(u, "op:"), strings.HasPrefix(u, "stmt:"), strings.HasPrefix(u, "rep:"):
+		case strings.HasPrefix(u, "op:"), strings.HasPrefix(u, "stmt:"), strings.HasPrefix(u, "rep:"), strings.HasPrefix(u, "src:"), u == "error_then_repeat":
 			o.Classes = append(o.Classes, u)
 		default:
 			o.Classes = append(o.Classes, "fn:"+u)
@@ -510,7 +681,7 @@ func checkProgram(c progCase) (fw.Outcome, *fw.Violation) {
 		return o, fw.Harness("mkdir: %v", err)
 	}
 	defer os.RemoveAll(dir)
-	if err := run.WriteFiles(dir, map[string]string{"t.csv": c.csv()}); err != nil {
+	if err := run.WriteFiles(dir, c.files()); err != nil {
 		return o, fw.Harness("write table: %v", err)
 	}
 	prepared := map[string]string{}
@@ -522,7 +693,7 @@ func checkProgram(c progCase) (fw.Outcome, *fw.Violation) {
 	text := c.program(true)
 	show := func() string { return "\n--- program (t.csv: " + fmt.Sprint(c.N) + " rows, cpu " + fmt.Sprint(c.CPU) + ") ---\n" + clip(text, 6000) }
 
-	pristine, _, perr := parser.Parse(text, "", false, false)
+	pristine, perr := parseChunks(chunksOf(text))
 	if perr != nil {
 		return o, fw.Harness("generated program does not parse: %v%s", perr, show())
 	}
@@ -588,7 +759,11 @@ func checkProgram(c progCase) (fw.Outcome, *fw.Violation) {
 	if s := hasSentinel(poisoned.out+errKey(poisoned.err), normal.out+errKey(normal.err)); s != "" {
 		return o, fw.V("poison_sentinel_in_output", "with poisoning Discard the output contains the sentinel %q (a discarded object was read): %s%s", s, firstLineDiff(normal.out, poisoned.out), show())
 	}
-	if poisoned.out != normal.out || errKey(poisoned.err) != errKey(normal.err) {
+	sameErr := errKey(poisoned.err) == errKey(normal.err)
+	if c.CPU > 1 && run.ErrClass(poisoned.err) == run.ErrClass(normal.err) {
+		sameErr = true // several rows fail in parallel: which row's message is reported first is open
+	}
+	if poisoned.out != normal.out || !sameErr {
 		return o, fw.V("poison_output_differs", "with poisoning Discard the program prints something else: %s; errors: %v / %v%s", firstLineDiff(normal.out, poisoned.out), errKey(normal.err), errKey(poisoned.err), show())
 	}
 	if poisoned.treeDiff != "" {
@@ -646,7 +821,7 @@ func checkProgram(c progCase) (fw.Outcome, *fw.Violation) {
 	}
 	o.Classes = append(o.Classes, "program_ok")
 	for _, u := range c.Uses {
-		if !strings.Contains(u, ":") {
+		if !strings.Contains(u, ":") && u != "error_then_repeat" {
 			fw.AddExtra("programs_using:"+u, 1) // the class histogram of the evidence keeps the most frequent labels only
 		}
 	}
